@@ -7,6 +7,7 @@ the transcript.  Usage from the command line:  python3 -m lib.swap2run [quick|th
 import hashlib
 import json
 import os
+import re
 import sys
 import tempfile
 import time
@@ -269,7 +270,8 @@ def _split_stderr(err):
 def run_cases(case_lines, chunk=500, san=True, timeout=900):
     """Runs the cases (16 driver processes at a time).  Returns one dict per case, in the order given:
     the fields of the X line (see parse_x), 'oracle' = list of oracle failure messages, 'crash' = None or
-    'signalN' / 'exitN', 'stderr' = sanitizer report of a crashed case (tail)."""
+    'signalN' / 'exitN', 'stderr' = sanitizer report of a crashed case (tail).  For a crashed case res is
+    'crash-in-swap2' (pre words known) or 'crash-after:<res>' (the call returned; post words known, no values)."""
     case_lines = list(case_lines)
     bdir, errors, _ = build_swap2drv(san=san)
     if errors:
@@ -300,7 +302,8 @@ def run_cases(case_lines, chunk=500, san=True, timeout=900):
         finally:
             os.unlink(path)
         errs = _split_stderr(err)
-        last = None
+        pres = {}
+        posts = {}
         for line in out.split("\n"):
             if line.startswith("X "):
                 r = parse_x(line)
@@ -311,7 +314,20 @@ def run_cases(case_lines, chunk=500, san=True, timeout=900):
                 r["stderr"] = ""
                 i = int(r["hid"][1:])
                 results[i] = r
-                last = r
+            elif line.startswith("P "):
+                pp = line.split(" | ")
+                if len(pp) == 3 and pp[1].startswith("preA=") and pp[2].startswith("preB="):
+                    try:
+                        pres[pp[0][2:]] = (_parse_obs(pp[1][5:], False), _parse_obs(pp[2][5:], False))
+                    except (ValueError, IndexError):
+                        pass
+            elif line.startswith("Q "):
+                pp = line.split(" | ")
+                if len(pp) == 4 and pp[1].startswith("res=") and pp[2].startswith("postA=") and pp[3].startswith("postB="):
+                    try:
+                        posts[pp[0][2:]] = (pp[1][4:], _parse_obs(pp[2][6:], False), _parse_obs(pp[3][6:], False))
+                    except (ValueError, IndexError):
+                        pass
             elif line.startswith("ORACLE "):
                 tk = line.split(" ", 3)
                 i = int(tk[1][1:])
@@ -328,6 +344,13 @@ def run_cases(case_lines, chunk=500, san=True, timeout=900):
                              "postB": None, "al": "-", "after": "-", "oracle": []}
                         r.update(parse_case(case_lines[i]))
                         results[i] = r
+                        if hid in pres:
+                            r["preA"], r["preB"] = pres[hid]
+                        if hid in posts:  # swap2 returned: the crash is in the reading of the elements or in the later use
+                            r["res"] = "crash-after:" + posts[hid][0]
+                            r["postA"], r["postB"] = posts[hid][1], posts[hid][2]
+                        elif hid in pres:
+                            r["res"] = "crash-in-swap2"
                     r["crash"] = toks.get("status", "?")
                     r["stderr"] = errs.get(hid, "")[-2500:]
         for i in idx:
@@ -350,15 +373,28 @@ def oracle_class(msg):
 
 
 def crash_class(r):
-    for line in (r.get("stderr") or "").split("\n"):
-        if "SUMMARY:" in line:
-            s = line.split("SUMMARY:", 1)[1].strip()
-            # drop addresses / paths to group alike reports
-            tk = s.split()
-            return "CRASH " + " ".join(tk[:2]) + (" in " + tk[-1] if len(tk) > 3 else "")
+    """Class of a crash: the kind of sanitizer report, without addresses and locations."""
+    err = r.get("stderr") or ""
+    for line in err.split("\n"):
         if "runtime error:" in line:
-            return "CRASH UBSan " + line.split("runtime error:", 1)[1].strip()[:80]
+            return "CRASH UBSan " + re.sub(r"0x[0-9a-f]+", "0x..", line.split("runtime error:", 1)[1].strip())[:70]
+        if "ERROR: AddressSanitizer:" in line:
+            return "CRASH ASan " + line.split("ERROR: AddressSanitizer:", 1)[1].split()[0]
+        if "terminate called" in line:
+            return "CRASH " + line.strip()[:90]
     return "CRASH " + str(r.get("crash"))
+
+
+def crash_where(r):
+    """First frames of a sanitizer report that are in the library or the driver."""
+    out = []
+    for line in (r.get("stderr") or "").split("\n"):
+        line = line.strip()
+        if line.startswith("#") and ("/amc/" in line or "swap2drv.cpp" in line):
+            out.append(line.split(" in ", 1)[-1][-160:])
+        if len(out) >= 3:
+            break
+    return " <- ".join(out)
 
 
 def summarize(results):
@@ -376,7 +412,7 @@ def summarize(results):
         for m in r["oracle"]:
             cls.append((oracle_class(m), m))
         if r.get("crash"):
-            cls.append((crash_class(r), (r.get("stderr") or "").strip().split("\n")[0][:300]))
+            cls.append((crash_class(r), crash_where(r) or (r.get("stderr") or "").strip().split("\n")[0][:300]))
         if cls:
             failing += 1
         seen = set()
